@@ -61,3 +61,17 @@ def _v21(repo, mod):
     s = find_stmt(fn, lambda s: isinstance(s, ast.Expr) and norm(s) == "test_cases.add(chromosome.clone())")
     ind = " " * s.col_offset
     return replace_node(mod, s, f"copy_ = chromosome.clone()\n{ind}test_cases.add(copy_)")
+
+
+@variant("C13", "solutions-iterated-once-per-objective", AR, "C13.iterable", "a one-shot iterable only reaches the first objective (the repaired defect)")
+def _v30(repo, mod):
+    fn = repo.func(AR, "CoverageArchive.update")
+    s = find_stmt(fn, lambda s: isinstance(s, ast.Assign) and norm(s) == "solutions = tuple(solutions)")
+    return delete_stmt(mod, s)
+
+
+@variant("C13", "twin-solutions-materialised-as-list", AR, None, "list instead of tuple")
+def _v31(repo, mod):
+    fn = repo.func(AR, "CoverageArchive.update")
+    s = find_stmt(fn, lambda s: isinstance(s, ast.Assign) and norm(s) == "solutions = tuple(solutions)")
+    return replace_node(mod, s, "solutions = list(solutions)")
